@@ -43,6 +43,9 @@ def candidates():
             code = text.split('//')[0]
             if 'phylotree_verif' in text or code.strip().startswith('#') or '"' in code and ('panic' in code or 'println' in code or 'format' in code): continue
             for pat, rep, name in OPS:
+                # angle brackets of generics are not comparisons
+                if name in ('lt->le', 'gt->ge') and re.search(r'->|::<|\b(Result|Option|Vec|HashMap|HashSet|Box|impl|fn|struct|dyn|Formatter|RefCell|Iterator)\b|<\s*[A-Z_\']', code):
+                    continue
                 for m in re.finditer(pat, code):
                     out.append((f, ln, m.start(), m.end(), rep, name, props))
     return out
